@@ -71,7 +71,11 @@ func c01Sink(sink, neigh, e, extra string) string {
 		}
 		return el
 	case "vtext":
-		return fmt.Sprintf(`<p id="s"%s%s v-text="%s"></p>`, extra, attr, e)
+		el := fmt.Sprintf(`<p id="s"%s%s v-text="%s"></p>`, extra, attr, e)
+		if c01CurHost != "" {
+			return c01WrapHost(c01CurHost, el)
+		}
+		return el
 	case "attri":
 		return fmt.Sprintf(`<p id="s"%s%s title="%sa{{ %s }}b%s"></p>`, extra, attr, pre, e, post)
 	case "nsattr": // attributes the parser puts into a namespace (xlink:href, xml:lang) inside foreign content
@@ -401,7 +405,7 @@ func init() {
 		Level: "exploration",
 		Rule: "all token strings up to the bound over the alphabet " + fmt.Sprintf("%q", c01Alphabet) + " plus 7 non-string values, in every sink (text, v-text, interpolated attr, :attr, v-bind:attr, interpolated namespaced attributes xlink:href / xml:lang / xlink:title inside <svg>; plus, in 4 constructs, bound :class / :style / :title / :data-k whose expression is spelled with {{ }}) x static neighbourhood (6) x enclosing construct (" + fmt.Sprint(len(c01Constructs)) + ": 13 single-evaluation constructs (incl. a sink below <pre>) swept with the full alphabet, 12 constructs in which one source node is evaluated repeatedly - slot content used twice / in a loop, cached components, template-rooted components, a second render - swept with the 7 tokens that matter for repeated interpolation); plus a sizes part: every token at the start / middle / end of values of 21 lengths around 16 .. 4096 in every sink; " +
 			"oracle: HTML5 re-parse has the same element/attribute-name skeleton as with the value 'zqx', and a canary bound to `secret` never appears. non-trivial = value contains one of < > \" ' & {; distinct = distinct (context, token vector)",
-		Bounds:      map[string]string{"quick": "token strings of length <= 3 in all contexts; text sink inside 15 special host elements (raw-text, RCDATA, noscript in both scripting modes, select, table, svg text, style / script inside svg and math) with the host's end tag added to the alphabet, length <= 3", "thorough": "token strings of length <= 3 in all contexts, length 4 in the N0 neighbourhood of every sink and construct"},
+		Bounds:      map[string]string{"quick": "token strings of length <= 3 in all contexts; text and v-text sinks inside 15 special host elements (raw-text, RCDATA, noscript in both scripting modes, select, table, svg text, style / script inside svg and math) with the host's end tag added to the alphabet, length <= 3", "thorough": "token strings of length <= 3 in all contexts, length 4 in the N0 neighbourhood of every sink and construct"},
 		Assumptions: []string{"golang.org/x/net/html is a faithful HTML5 parser", "v-html sinks and script/style bodies are exempt and never used as sinks"},
 		Decode:      core.DecodeAs[c01Case](),
 		Enumerate: func(tier string, emit func(core.Case)) {
@@ -427,6 +431,9 @@ func init() {
 					val := joinTokens(alpha, tok)
 					for _, c := range []string{"top", "forchild", "incbound", "slotnamed"} {
 						emit(&c01Case{Host: h, Sink: "text", Neigh: "N0", Construct: c, Tokens: append([]int(nil), tok...), Value: val})
+						if c == "top" || c == "forchild" {
+							emit(&c01Case{Host: h, Sink: "vtext", Neigh: "N0", Construct: c, Tokens: append([]int(nil), tok...), Value: val})
+						}
 					}
 				})
 			}
